@@ -223,14 +223,22 @@ def run(ck):
                 kw = {"lr": VNum("float", T.sym("lr"), pos=True), "k": VNum("int", T.sym("kfit"), nonneg=True)}
                 if cls != "PositiveWaveFunction":
                     kw["input_bases"] = api.bases_arr(it, "input_bases", "N")
+                # the caller's own option dictionaries (re-used for the next fit with another lr)
+                od = it.new_dict({"momentum": VNum("float", T.sym("momentum"), nonneg=True)})
+                od.obj.origin = "param:optimizer_args"
+                kw["optimizer_args"] = od
                 call(it, s, "fit", data, **kw)
-                return s
+                return s, od
 
             paths = [p for p in paths_of(prog, thf, max_paths=100, sticky=True, stubs={"NeuralStateBase.compute_batch_gradients": stub_grad_lists}) if p.outcome == "return"]
             ck.check(bool(paths), "C06.R3", inst + ":runs", fsite, "fit never returns")
             for p in paths:
                 it = p.interp
-                s = p.value
+                s, od = p.value
+                touched = [e for e in p.effects if e.kind == "container" and e.obj is od.obj]
+                ck.check(not touched, "C06.R3", inst + ":the caller's optimizer_args are left as given [%s]" % path_tag(p), touched[0].site if touched else fsite,
+                         "fit modifies the caller's optimizer_args dictionary (%s): what this run puts there (the learning rate) is silently used by the next fit that re-uses the dictionary"
+                         % (touched[0].detail if touched else ""), key="C06.R3|%s|optimizer_args mutated" % cls)
                 nets = state_networks(it, s)
                 # the number of Gibbs steps asked for is the number used, for every k >= 0 (k = 0 included)
                 for c_ in [c for c in p.calls if c[0].endswith(".compute_batch_gradients")][:1]:
